@@ -854,7 +854,11 @@ func (fr *Frame) callsiteChecks(cc *ssa.CallCommon, args []Val, st *State, reach
 	}
 	for _, cl := range fr.contract.clauses("callsite") {
 		if cl.Label != name {
-			continue
+			// Name#k: the k-th call of Name in source order
+			i := strings.Index(cl.Label, "#")
+			if i < 0 || cl.Label[:i] != name || cl.Label[i+1:] != fmt.Sprint(fr.callOrdinal(name, pos)) {
+				continue
+			}
 		}
 		env := fr.env(st)
 		for i := 0; i < sig.Params().Len() && i < len(args); i++ {
@@ -872,6 +876,45 @@ func (fr *Frame) callsiteChecks(cc *ssa.CallCommon, args []Val, st *State, reach
 				continue
 			}
 			fr.oblige("callsite", name+" requires "+cj.String(), reach, t, pos)
+			fr.c.smt.assume(implies(reach, t), "callsite clause (checked above)")
 		}
 	}
+}
+
+// callOrdinal: 1-based rank (by source position) of the call at pos among the calls of functions
+// or methods called `name` in this frame's function.
+func (fr *Frame) callOrdinal(name string, pos token.Pos) int {
+	var ps []token.Pos
+	for _, b := range fr.fn.Blocks {
+		for _, in := range b.Instrs {
+			var cc *ssa.CallCommon
+			switch x := in.(type) {
+			case *ssa.Call:
+				cc = x.Common()
+			case *ssa.Defer:
+				cc = x.Common()
+			case *ssa.Go:
+				cc = x.Common()
+			}
+			if cc == nil {
+				continue
+			}
+			n := ""
+			if cc.IsInvoke() {
+				n = cc.Method.Name()
+			} else if f := cc.StaticCallee(); f != nil {
+				n = f.Name()
+			}
+			if n == name {
+				ps = append(ps, in.Pos())
+			}
+		}
+	}
+	k := 1
+	for _, p := range ps {
+		if p < pos {
+			k++
+		}
+	}
+	return k
 }
